@@ -28,6 +28,10 @@ def get_check(prop):
         from .toposort import TopoCheck
 
         return TopoCheck()
+    if prop in ("C01", "C03", "C05", "C06", "C08", "C09", "C10", "C11"):
+        from .objects import ObjectsCheck
+
+        return ObjectsCheck(prop)
     raise SystemExit(f"no check for {prop}")
 
 
